@@ -157,6 +157,8 @@ def scenario_fill_times():
 
 
 def replay(pl):
+    if pl['obligation'].startswith('float'):
+        return bounded(pl)
     if pl['obligation'].startswith('chunk-clock'):
         try:
             d = scenario_fill_times()
@@ -184,3 +186,41 @@ def replay_finding(entry):
     k = entry.get('witness', {}).get('kind')
     d = scenario_flip() if k == 'flip' else scenario_oversize() if k == 'oversize' else None
     return {'confirmed': bool(d), 'detail': d}
+
+
+# ------------------------------------------------------------------------------------------------ bounded float check
+GRID = ['0.05', '0.1', '0.2', '0.3', '0.7', '1.1', '2.2']
+
+
+def bounded(pl):
+    """BOUNDED stand-in for assumption A-1 where a decimal sum decides the KIND of a fill: entries a and b, one exit for the
+    decimal total a + b must CLOSE the position (qty exactly 0, on_close fires, the trade is completed) - jesse adds position
+    sizes with sum_floats / subtract_floats for exactly this reason.  Futures and both sides; 98 histories."""
+    from fractions import Fraction as F
+    from native.world import session
+    from native.C05 import _mk
+    from jesse.store import store
+    n = 0
+    for a in GRID:
+        for b in GRID:
+            for side in ('buy', 'sell'):
+                n += 1
+                w = session('futures', leverage=2, fee=0.001)
+                p = w['positions']['BTC-USDT']
+                p.current_price = 100.0
+                hooks = w['strategies']['BTC-USDT'].calls if hasattr(w['strategies']['BTC-USDT'], 'calls') else None
+                other = 'sell' if side == 'buy' else 'buy'
+                total = float(F(a) + F(b))
+                for q in (float(a), float(b)):
+                    o = _mk(side, 'LIMIT', q, 100.0)
+                    o.execute()
+                x = _mk(other, 'LIMIT', total, 101.0)
+                x.execute()
+                if p.qty != 0 or not p.is_close:
+                    return {'confirmed': True, 'cases': n,
+                            'detail': f'futures: {side} {a} and {b} at 100, then {other} {total} at 101: the position is left at {p.qty!r} '
+                                      f'(is_close={p.is_close}) - the exit for the decimal total did not close it'}
+                if len(store.completed_trades.trades) != 1:
+                    return {'confirmed': True, 'cases': n,
+                            'detail': f'futures: {side} {a} and {b}, exit {total}: {len(store.completed_trades.trades)} completed trades (expected 1)'}
+    return {'confirmed': False, 'cases': n, 'detail': f'{n} decimal histories: the exit for the decimal total closes the position exactly'}
